@@ -686,8 +686,192 @@ def oracle_c09(ctx, extra_modules=True):
 
 
 # ================================================================================================
+# (d3) C06 oracle: forward VALUES of the public API against torch.nn.functional
+FWD_SHAPES = [(), (1,), (5,), (3, 4), (2, 1, 3), (2, 3, 2)]
+
+
+def fwd_table():
+    """(name, kind 'act' | 'loss', synapgrad callable(I, x[, y]), torch callable(torch, TF, x[, y]), domain of x, domain of y)"""
+    t = []
+    A = lambda name, f, tf, dom="any0": t.append((name, "act", f, tf, dom, None))
+    L = lambda name, f, tf, dom, ydom: t.append((name, "loss", f, tf, dom, ydom))
+    A("F.relu", lambda I, x: I.NF.relu(x), lambda T, TF, x: TF.relu(x))
+    A("nn.ReLU", lambda I, x: I.nn.ReLU()(x), lambda T, TF, x: TF.relu(x))
+    for s in (None, 0.2, 1.5, 0.0):
+        if s is None:
+            A("F.leaky_relu", lambda I, x: I.NF.leaky_relu(x), lambda T, TF, x: TF.leaky_relu(x))
+            A("nn.LeakyReLU", lambda I, x: I.nn.LeakyReLU()(x), lambda T, TF, x: TF.leaky_relu(x))
+        else:
+            A("F.leaky_relu(%s)" % s, (lambda s: lambda I, x: I.NF.leaky_relu(x, s))(s), (lambda s: lambda T, TF, x: TF.leaky_relu(x, s))(s))
+            A("nn.LeakyReLU(%s)" % s, (lambda s: lambda I, x: I.nn.LeakyReLU(s)(x))(s), (lambda s: lambda T, TF, x: TF.leaky_relu(x, s))(s))
+    A("F.selu", lambda I, x: I.NF.selu(x), lambda T, TF, x: TF.selu(x))
+    A("nn.SELU", lambda I, x: I.nn.SELU()(x), lambda T, TF, x: TF.selu(x))
+    A("F.tanh", lambda I, x: I.NF.tanh(x), lambda T, TF, x: T.tanh(x))
+    A("nn.Tanh", lambda I, x: I.nn.Tanh()(x), lambda T, TF, x: T.tanh(x))
+    A("F.sigmoid", lambda I, x: I.NF.sigmoid(x), lambda T, TF, x: T.sigmoid(x))
+    A("nn.Sigmoid", lambda I, x: I.nn.Sigmoid()(x), lambda T, TF, x: T.sigmoid(x))
+    L("F.mse_loss", lambda I, x, y: I.NF.mse_loss(x, y), lambda T, TF, x, y: TF.mse_loss(x, y, reduction="none"), "any0", "any0")
+    L("F.binary_cross_entropy", lambda I, x, y: I.NF.binary_cross_entropy(x, y), lambda T, TF, x, y: TF.binary_cross_entropy(x, y, reduction="none"), "prob", "target")
+    L("F.binary_cross_entropy_with_logits", lambda I, x, y: I.NF.binary_cross_entropy_with_logits(x, y),
+      lambda T, TF, x, y: TF.binary_cross_entropy_with_logits(x, y, reduction="none"), "any0", "target")
+    for red in ("mean", "sum", "none"):
+        L("nn.MSELoss(%s)" % red, (lambda r: lambda I, x, y: I.nn.MSELoss(reduction=r)(x, y))(red), (lambda r: lambda T, TF, x, y: TF.mse_loss(x, y, reduction=r))(red), "any0", "any0")
+        L("nn.BCELoss(%s)" % red, (lambda r: lambda I, x, y: I.nn.BCELoss(reduction=r)(x, y))(red), (lambda r: lambda T, TF, x, y: TF.binary_cross_entropy(x, y, reduction=r))(red), "prob", "target")
+        L("nn.BCEWithLogitsLoss(%s)" % red, (lambda r: lambda I, x, y: I.nn.BCEWithLogitsLoss(reduction=r)(x, y))(red),
+          (lambda r: lambda T, TF, x, y: TF.binary_cross_entropy_with_logits(x, y, reduction=r))(red), "any0", "target")
+    return t
+
+
+def draw_fwd(rng, np, shape, dom, dtype):
+    n = 1
+    for k in shape:
+        n *= k
+    vals = []
+    for _ in range(n):
+        if dom == "prob":
+            v = rng.choice([rng.uniform(0.01, 0.99), rng.uniform(1e-4, 1e-2), 1 - rng.uniform(1e-4, 1e-2)])
+        elif dom == "target":
+            v = rng.choice([0.0, 1.0, rng.uniform(0.0, 1.0)])
+        else:                        # both signs, the kink 0 itself, moderate and larger magnitudes
+            v = rng.choice([0.0, rng.uniform(-3, 3), rng.uniform(-12, 12), -rng.uniform(0, 1e-3)])
+        vals.append(v)
+    return np.array(vals, dtype=np.float32).astype(dtype).reshape(shape)
+
+
+def judge_forward(ctx, impl, row, x, y, dtype):
+    np, torch = impl.np, _torch()
+    name, kind, f, tf, dom, ydom = row
+    sg = impl.synapgrad
+    desc = {"op": name, "dtype": np.dtype(dtype).name, "x": x.tolist(), "y": None if y is None else y.tolist()}
+    args = [sg.Tensor(x.copy())] + ([] if y is None else [sg.Tensor(y.copy())])
+    targs = [torch.tensor(x)] + ([] if y is None else [torch.tensor(y)])
+    site = "%s/forward" % name
+    with np.errstate(all="ignore"):
+        try:
+            got = np.asarray(f(impl, *args).data)
+        except Exception as ex:
+            return ctx.witness(site, "forward-raises", desc, "a value", {"raised": repr(ex)})
+    ref = tf(torch, torch.nn.functional, *targs).numpy()
+    rtol, atol = (1e-9, 1e-11) if dtype == np.float64 else (2e-5, 2e-6)
+    d = disagree(np, got, ref, rtol, atol)
+    if d:
+        return ctx.witness(site, "forward-value", desc, {"torch": np.asarray(ref).tolist()}, {"value": got.tolist(), "first_disagreement": d},
+                           note="differs from torch.nn.functional beyond rtol=%g atol=%g*max(1,|ref|)" % (rtol, atol))
+    return False
+
+
+def oracle_bce_corners(ctx):
+    """the documented clamp of binary_cross_entropy: 100 at (p, y) = (0, 1) and (1, 0) ("for compatibility with pytorch"), in both dtypes.
+    One site/class per dtype so that a known finding can name it."""
+    from lib import impl
+    np, sg, torch = impl.np, impl.synapgrad, _torch()
+    found = 0
+    for dtype in (np.float64, np.float32):
+        p = np.array([0, 1, 0, 1, 0.5], dtype=dtype); y = np.array([1, 0, 0, 1, 1], dtype=dtype)
+        with np.errstate(all="ignore"):
+            got = np.asarray(impl.NF.binary_cross_entropy(sg.Tensor(p.copy()), sg.Tensor(y.copy())).data, dtype=np.float64)
+        ref = torch.nn.functional.binary_cross_entropy(torch.tensor(p), torch.tensor(y), reduction="none").numpy().astype(np.float64)
+        if not np.allclose(got, ref, rtol=1e-6, atol=1e-6):
+            found += bool(ctx.witness("nn.functional.binary_cross_entropy/forward", "clamp-corner/%s" % np.dtype(dtype).name,
+                                      {"op": "F.binary_cross_entropy", "dtype": np.dtype(dtype).name, "x": p.tolist(), "y": y.tolist()},
+                                      {"torch": ref.tolist(), "documented": "100 where (y_pred, y_true) is (0,1) or (1,0)"}, {"value": got.tolist()},
+                                      note="the clamp `loss == -np.log(epsilon)` is a float equality; theorem bce_forward_clamp is its real-number reading"))
+    return found
+
+
+def oracle_forward_values(ctx):
+    from lib import impl
+    np = impl.np
+    if _torch() is None:
+        ctx.notes.append("C06 scalar oracle skipped: PyTorch not importable")
+        return 0
+    corner = oracle_bce_corners(ctx)
+    rng = ctx.rng
+    reps = 1 if ctx.quick else 5
+    judged = found = 0
+    for row in fwd_table():
+        for dtype in (np.float64, np.float32):
+            for shp in FWD_SHAPES:
+                for _ in range(reps):
+                    x = draw_fwd(rng, np, shp, row[4], dtype)
+                    y = None if row[1] == "act" else draw_fwd(rng, np, shp, row[5], dtype)
+                    judged += 1
+                    if judge_forward(ctx, impl, row, x, y, dtype):
+                        found += 1
+                if found >= 5:
+                    break
+    found += corner
+    ctx.extra.setdefault("oracle", {})["forward_values_C06"] = {"api_entries": len(fwd_table()), "cases_judged": judged + 2, "witnesses": found, "bce_clamp_corner_witnesses": corner,
+                                                                "shapes": [list(s) for s in FWD_SHAPES], "reference": "torch.nn.functional",
+                                                                "tolerance": "float64 rtol 1e-9 / atol 1e-11, float32 rtol 2e-5 / atol 2e-6 (times max(1,|ref|))"}
+    return found
+
+
+# ================================================================================================
+# (d4) C14 oracle: BCE-with-logits against BCE o sigmoid on the real library
+def fused_sides(impl, x, y, g, dtype):
+    sg, np = impl.synapgrad, impl.np
+    X1 = sg.Tensor(np.array(x, dtype=dtype), requires_grad=True)
+    X2 = sg.Tensor(np.array(x, dtype=dtype), requires_grad=True)
+    Y = sg.Tensor(np.array(y, dtype=dtype))
+    G = np.array(g, dtype=dtype)
+    with np.errstate(all="ignore"):
+        a = impl.NF.binary_cross_entropy_with_logits(X1, Y); a.backward(sg.Tensor(G.copy()))
+        b = impl.NF.binary_cross_entropy(impl.NF.sigmoid(X2), Y); b.backward(sg.Tensor(G.copy()))
+    return (np.asarray(a.data, dtype=np.float64), np.asarray(X1._grad, dtype=np.float64),
+            np.asarray(b.data, dtype=np.float64), np.asarray(X2._grad, dtype=np.float64))
+
+
+def fused_tolerances(xv, gv, dtype_name):
+    """proved bound (reals) + allowance for the float evaluation of the composed side, which computes 1 - sigmoid(x) and
+    ln(. + eps) and therefore loses a factor ~exp|x| of relative accuracy"""
+    eps = 1e-12
+    u = 2.0 ** -53 if dtype_name == "float64" else 2.0 ** -24
+    e = math.exp(abs(xv))
+    bound_v = eps * (2 + math.exp(xv) + math.exp(-xv))
+    bound_g = abs(gv) * eps * (math.exp(xv) + math.exp(-xv))
+    fl = 16 * u * (2 + e) * max(1.0, abs(xv))
+    return bound_v + fl, bound_g + abs(gv) * fl, bound_v, bound_g
+
+
+def oracle_fused(ctx):
+    from lib import impl
+    np = impl.np
+    rng = ctx.rng
+    n = 300 if ctx.quick else 3000
+    found, judged = 0, 0
+    worst = {}
+    for dtype, lim in ((np.float64, 15.0), (np.float32, 6.0)):
+        xs = [0.0, lim, -lim, 1.0, -1.0] + [rng.uniform(-lim, lim) for _ in range(n)]
+        ys = [rng.choice([0.0, 1.0, rng.uniform(0, 1)]) for _ in xs]
+        gs = [rng.choice([1.0, -1.5, rng.uniform(-2, 2)]) for _ in xs]
+        xs = [float(np.array(v, dtype=dtype)) for v in xs]; ys = [float(np.array(v, dtype=dtype)) for v in ys]; gs = [float(np.array(v, dtype=dtype)) for v in gs]
+        fv, fg, cv, cg = fused_sides(impl, xs, ys, gs, dtype)
+        name = np.dtype(dtype).name
+        for i, xv in enumerate(xs):
+            judged += 1
+            tv, tg, bv, bg = fused_tolerances(xv, gs[i], name)
+            dv, dg = abs(fv[i] - cv[i]), abs(fg[i] - cg[i])
+            for kind, d, tol, b in (("value", dv, tv, bv), ("gradient", dg, tg, bg)):
+                k = "%s/%s" % (kind, name)
+                r = d / tol if tol > 0 else 0.0
+                if not (worst.get(k, (0.0,))[0] >= r):
+                    worst[k] = (r, xv, d, b)
+                if not (d <= tol):
+                    if found < 5:
+                        found += bool(ctx.witness("nn.functional.binary_cross_entropy_with_logits vs binary_cross_entropy(sigmoid)", "fused-identity",
+                                                  {"x": xv, "y": ys[i], "g": gs[i], "dtype": name, "kind": kind},
+                                                  {"proved_bound_over_R": b, "tolerance_with_float_allowance": tol},
+                                                  {"fused": float(fv[i] if kind == "value" else fg[i]), "composed": float(cv[i] if kind == "value" else cg[i]), "difference": float(d)}))
+    ctx.extra.setdefault("oracle", {})["fused_C14"] = {"cases_judged": judged, "witnesses": found,
+                                                       "worst(difference/tolerance, x, difference, proved bound)": worst,
+                                                       "range": "float64 |x| <= 15, float32 |x| <= 6; hard and soft targets; non-uniform upstream gradient"}
+    return found
+
+
+# ================================================================================================
 def run_part(ctx, props_file, part=None, oracle=True):
-    """(a) translate, (b) self-check, (c) build props_file, (d) oracle for the part ('C01' | 'C02' | 'C09', default:
+    """(a) translate, (b) self-check, (c) build props_file, (d) oracle for the part ('C01' | 'C02' | 'C09' | 'C06' | 'C14', default:
     from the file name).  Returns True iff nothing broke."""
     part = part or os.path.basename(props_file)[:3].upper()
     n_broken, n_wit = len(ctx.broken), len(ctx.witnesses)
@@ -709,6 +893,10 @@ def run_part(ctx, props_file, part=None, oracle=True):
                 oracle_scalar_operands(ctx)
         elif part == "C09":
             oracle_c09(ctx)
+        elif part == "C06":
+            oracle_forward_values(ctx)
+        elif part == "C14":
+            oracle_fused(ctx)
     return len(ctx.broken) == n_broken and len(ctx.witnesses) == n_wit
 
 
@@ -754,6 +942,23 @@ def replay_witness(ctx, data):
         print("replay scalar operands: %s" % ("still fails: %s" % json.dumps(ctx.witnesses[-1]["observed"])[:300] if n else "passes now"))
         return 1 if n else 0
     dtype = np.dtype(inp["dtype"]).type
+    if data["class"] == "fused-identity":
+        fv, fg, cv, cg = fused_sides(impl, [inp["x"]], [inp["y"]], [inp["g"]], dtype)
+        tv, tg, bv, bg = fused_tolerances(inp["x"], inp["g"], inp["dtype"])
+        d, tol = (abs(fv[0] - cv[0]), tv) if inp["kind"] == "value" else (abs(fg[0] - cg[0]), tg)
+        print("replay fused identity x=%r y=%r: difference %g, tolerance %g" % (inp["x"], inp["y"], d, tol))
+        return 0 if d <= tol else 1
+    if data["class"].startswith("clamp-corner"):
+        n = oracle_bce_corners(ctx)
+        print("replay bce clamp corners: %s" % ("still fails: %s" % json.dumps([w["observed"] for w in ctx.witnesses])[:300] if n else "passes now"))
+        return 1 if n else 0
+    if data["site"].endswith("/forward") and any(r[0] == inp.get("op") for r in fwd_table()):
+        row = [r for r in fwd_table() if r[0] == inp["op"]][0]
+        n0 = len(ctx.witnesses)
+        judge_forward(ctx, impl, row, np.array(inp["x"], dtype=dtype), None if inp["y"] is None else np.array(inp["y"], dtype=dtype), dtype)
+        still = len(ctx.witnesses) > n0
+        print("replay %s forward: %s" % (inp["op"], "still fails: %s" % json.dumps(ctx.witnesses[-1]["observed"], default=str)[:300] if still else "passes now"))
+        return 1 if still else 0
     if data["class"] == "large-magnitude" or data["class"] == "raises":
         o = [o for o in c09_ops() if o["name"] == inp["op"]][0]
         import mpmath as mp
